@@ -44,13 +44,31 @@ func randomInput(r *hx.Rand) Input {
 	in.APorts = r.Range(1, 3)
 	in.ANetCap = r.Range(1, 4)
 	in.Drain = script(r, 3)
-	nb := r.Range(1, 3)
+	nb := r.Pick(2, 4, 3) + 1
 	for i := 0; i < nb; i++ {
-		in.BCaps = append(in.BCaps, r.Range(1, 3))
+		in.BCaps = append(in.BCaps, r.Pick(4, 2, 1)+1) // mostly tiny device-port buffers
 	}
 	in.BNetCap = r.Range(1, 4)
 	in.Feed = script(r, 3)
 	in.Pull = script(r, 2)
+	// every device port of B gets its own drain script; often one port is stalled for a long
+	// stretch while the others keep draining, so that a message for the full port waits at the
+	// head of AssembledMsgs with messages for free ports behind it
+	if nb > 1 || r.Bool() {
+		stalled := -1
+		if r.Chance(2, 3) {
+			stalled = r.Intn(nb)
+		}
+		for i := 0; i < nb; i++ {
+			if i == stalled {
+				st := make([]int, r.Range(4, 14))
+				st[len(st)-1] = r.Range(1, 2)
+				in.PullPorts = append(in.PullPorts, st)
+			} else {
+				in.PullPorts = append(in.PullPorts, script(r, 2))
+			}
+		}
+	}
 	nm := r.Range(1, 8)
 	total := 0
 	for i := 0; i < nm; i++ {
@@ -145,6 +163,27 @@ func gen(r *hx.Rand, tier string) []json.RawMessage {
 		in.Perm = perm
 		add(in)
 	}
+	// a blocked device port ahead of a free one: B has two ports with one-slot buffers, the device
+	// does not drain port 0 for a while but drains port 1 every tick; messages ->0, ->0, ->1, ->1, ->0
+	for _, stall := range []int{6, 12, 30} {
+		in := base
+		in.NIn, in.NOut, in.ANetCap, in.BNetCap = 2, 2, 4, 4
+		in.Drain, in.Feed = []int{2}, []int{2}
+		in.BCaps = []int{1, 1}
+		st := make([]int, stall)
+		st[stall-1] = 1
+		in.PullPorts = [][]int{st, {1}}
+		in.Msgs = []Msg{{Dst: 0, Bytes: 4, ID: 1}, {Dst: 0, Bytes: 4, ID: 2}, {Dst: 1, Bytes: 4, ID: 3},
+			{Dst: 1, Bytes: 40, ID: 4}, {Dst: 0, Bytes: 4, ID: 5}}
+		in.Perm = []int{0, 1, 2, 3, 4, 5}
+		add(in)
+		in.BCaps = []int{1, 2, 1}
+		in.PullPorts = [][]int{{1}, st, {0, 1}}
+		in.Msgs = []Msg{{Dst: 1, Bytes: 4, ID: 1}, {Dst: 1, Bytes: 4, ID: 2}, {Dst: 1, Bytes: 4, ID: 3}, {Dst: 0, Bytes: 4, ID: 4},
+			{Dst: 2, Bytes: 4, ID: 5}, {Dst: 1, Bytes: 4, ID: 6}, {Dst: 0, Bytes: 70, ID: 7}}
+		in.Perm = []int{0, 1, 2, 3, 4, 5, 6, 7, 8}
+		add(in)
+	}
 	// zero overhead, exact multiples
 	for _, b := range []int64{31, 32, 33, 64, 96} {
 		in := base
@@ -190,7 +229,7 @@ func shrink(raw json.RawMessage) []json.RawMessage {
 		}
 	}
 	c := in
-	c.Drain, c.Feed, c.Pull = []int{1}, []int{1}, []int{1}
+	c.Drain, c.Feed = []int{1}, []int{1}
 	out = append(out, hx.J(c))
 	return out
 }
@@ -199,8 +238,8 @@ func init() {
 	hx.Register(&hx.Prop{
 		ID: "C31",
 		Rule: "directed: byte counts whose ENCODED size is k*flit, k*flit-1, k*flit+1 (default overhead 0.25 and zero overhead), two messages interleaved flit by flit; " +
-			"random: flit size in {1,2,3,7,8,16,32,64,100}, dyadic overhead num/2^exp (so that float64 arithmetic is exact), 1-3 channels, 1-3 device ports per endpoint, " +
-			"1-8 messages with byte counts around multiples of the flit size / tiny / zero / negative, scripted drain/feed/pull rates with back-pressure (zeros), " +
+			"random: flit size in {1,2,3,7,8,16,32,64,100}, dyadic overhead num/2^exp (so that float64 arithmetic is exact), 1-3 channels, 1-3 device ports on the sender, " +
+			"1-8 messages with byte counts around multiples of the flit size / tiny / zero / negative, scripted drain/feed rates with back-pressure (zeros), 1-3 device ports on the receiver with mostly one-slot buffers and an independent drain script per port (2/3 of the cases stall one port for 4-14 ticks while the others drain; directed head-of-line scenarios), " +
 			"flits delivered to the receiver in identity / fully shuffled / locally swapped order, 25% with 1-3 flits withheld; a small malformed share (flit size 0 or negative, unknown destination port). " +
 			"Non-trivial: >=2 messages, at least one multi-flit, reordered delivery. Distinct = distinct input hash.",
 		Gen: gen, Run: run, Shrink: shrink,
